@@ -2,6 +2,7 @@ pub mod boundary;
 pub mod c01;
 pub mod c06;
 pub mod c08x;
+pub mod c10x;
 pub mod c14;
 pub mod c17;
 pub mod c18;
